@@ -29,6 +29,7 @@ SUBST = {
     "pysam": "engine.sympysam",
     "fractions": "engine.symfractions",
     "decimal": "engine.symfractions",
+    "math": "engine.symmath",
 }
 
 # per-module substitutions (module name below the package -> {real module: shim})
